@@ -58,6 +58,17 @@ Theorem C02_commit_opstamp_reported : forall nw h sc,
   spec_accessor h (map ret_acc (run_trace true (new_writer nw init_meta) h sc)) = true.
 Proof. exact accessor_fixed. Qed.
 
+(* internal events -- a worker taking the next batch, the memory budget closing a segment (the batch just taken
+   included) -- never change what the next commit will publish: the refinement invariant `Good` (Inv + "working
+   (replay h) is a permutation of the effective content of registers, open segments and channel") is preserved by
+   every event list *)
+Theorem C02_events_preserve_content : forall nw es st sp dirty,
+  Good nw st sp dirty -> Good nw (fold_left do_event es st) sp dirty.
+Proof. exact events_good. Qed.
+Theorem C02_budget_cut_keeps_documents : forall nw st sp dirty i,
+  Good nw st sp dirty -> Good nw (do_cut st i) sp dirty /\ Permutation (working sp) (eff (do_cut st i)).
+Proof. exact cut_keeps_documents. Qed.
+
 (* the mechanism lemmas the refinement rests on: apply_deletes (per-document test doc_opstamp <
    delete_opstamp) and advance_deletes (whole segment) keep what an entry finally contributes *)
 Theorem C02_apply_deletes_sound : forall q c docs,
@@ -114,6 +125,8 @@ Print Assumptions C02_schedule_independent.
 Print Assumptions C02_delete_only_earlier.
 Print Assumptions C02_rollback_restores.
 Print Assumptions C02_restore_reloads_meta.
+Print Assumptions C02_events_preserve_content.
+Print Assumptions C02_budget_cut_keeps_documents.
 Print Assumptions C02_opstamps.
 Print Assumptions C02_commit_opstamp_reported.
 Print Assumptions C02_apply_deletes_sound.
